@@ -5,7 +5,10 @@
   Model: Model/Wrapper.lean (`run` with a fault plan: every internal step may fail, panic, or the process is
   killed there), Model/Journal.lean (readers of the private JSONL/JSON state, total on arbitrary text),
   Model/Snapshot.lean (working-log entry → snapshot-blob indirection; a blob read may fail; §6),
-  inventories Extracted/WrapperTables.lean, Extracted/SnapshotReads.lean (regenerated from /repo/src on every run).
+  Model/JournalStore.lean (the private files as file-system NODES: absent / a file with any bytes / cannot be read or
+  written at all; the pre-commit checkpoint with the handling of each storage failure; §4b),
+  inventories Extracted/WrapperTables.lean, Extracted/SnapshotReads.lean, Extracted/JournalStore.lean (regenerated from
+  /repo/src on every run).
 
   PARTIAL in the sense of DESIGN §10: fault points are the internal steps (git subprocess calls, file writes,
   state reads), not every instruction; a single step is atomic (filesystem atomicity of one `fs::write`);
@@ -17,6 +20,8 @@ import GitAiModel.Props.C06
 import GitAiModel.Base.Chars
 import GitAiModel.Lemmas.Snapshot
 import GitAiModel.Extracted.SnapshotReads
+import GitAiModel.Lemmas.JournalStore
+import GitAiModel.Extracted.JournalStore
 namespace GitAi.C07
 open GitAi GitAi.Wrapper GitAi.Cli GitAi.Journal GitAi.C06
 
@@ -306,15 +311,11 @@ theorem preCommit_no_exit (K : GitKernel) (hK : Healthy K) {C : Type} (ckpts ini
       simp only [hrd] at h6 ⊢
       exact script_no_exit K hK (body cps) h6 _ _ c
 
-/-- **C07 later commands.** After ANY run — any argv, any fault plan, hence any state of git-ai's private files the
-    faults may have left — the next command, run without faults, reaches git: for every command when the
-    start-up prologue completes and the commit pre-hook is the modelled pre-commit program with a reader that
-    skips unparsable lines (`readers_in_source`) and healthy internal plumbing. -/
-theorem later_commands_work (K : GitKernel) (H : Hooks) (hH : WF H) {C : Type} (M : CommitModel H C)
-    (hTol : ∀ s, M.rd s ≠ none) (hK : Healthy K) (hPro : ∀ p, Completes K (H.prologue p))
-    (argv : List Str) (w : World) (plan : Plan) (argv2 : List Str) :
-    (run K H argv2 (run K H argv w plan).world []).kind = .gitRan := by
-  generalize (run K H argv w plan).world = w'
+/-- the core: a command run without faults from ANY world reaches git when the start-up prologue completes and the
+    commit pre-hook cannot exit in a fault-free run (the other pre-hooks have no exit at all, `WF.pre_exit_only_commit`). -/
+theorem later_commands_work_of (K : GitKernel) (H : Hooks) (hH : WF H) (hPro : ∀ p, Completes K (H.prologue p))
+    (hCommit : ∀ p, p.command = some commitWord → ∀ w d c, (execProg K (H.pre p) ⟨w, [], d⟩).1 ≠ .exited c)
+    (w' : World) (argv2 : List Str) : (run K H argv2 w' []).kind = .gitRan := by
   have h0 := hPro (H.alias (parse argv2)) w' false
   have hp0 := exec_plan_nil K (H.prologue (H.alias (parse argv2))) ⟨w', [], false⟩ rfl
   simp only [run]
@@ -327,17 +328,11 @@ theorem later_commands_work (K : GitKernel) (H : Hooks) (hH : WF H) {C : Type} (
   have hne : ∀ c, (execProg K (H.pre (H.alias (parse argv2))) s0).1 ≠ .exited c := by
     intro c
     by_cases hc : (H.alias (parse argv2)).command = some commitWord
-    · have hpc := hH.pre_confined (H.alias (parse argv2))
-      rw [M.pre_commit _ hc] at hpc ⊢
-      split
-      · simp [execProg]
-      · rename_i hdry
-        rw [if_neg hdry] at hpc
-        have hs0 : s0 = ⟨s0.w, [], s0.diag⟩ := by
-          cases s0 with
-          | mk w p d => simp only [] at hp0; subst hp0; rfl
-        rw [hs0]
-        exact preCommit_no_exit K hK _ _ _ _ _ _ hTol hpc _ _ c
+    · have hs0 : s0 = ⟨s0.w, [], s0.diag⟩ := by
+        cases s0 with
+        | mk w p d => simp only [] at hp0; subst hp0; rfl
+      rw [hs0]
+      exact hCommit _ hc _ _ c
     · exact exec_noexit K (hH.pre_exit_only_commit _ hc) s0 c
   have hk1 := exec_not_killed_nil K (H.pre (H.alias (parse argv2))) s0 hp0
   have hp1 := exec_plan_nil K (H.pre (H.alias (parse argv2))) s0 hp0
@@ -364,6 +359,127 @@ theorem later_commands_work (K : GitKernel) (H : Hooks) (hH : WF H) {C : Type} (
     cases e2 with
     | killed => exact absurd rfl hpk
     | _ => rfl
+
+/-- **C07 later commands.** After ANY run — any argv, any fault plan, hence any state of git-ai's private files the
+    faults may have left — the next command, run without faults, reaches git: for every command when the
+    start-up prologue completes and the commit pre-hook is the modelled pre-commit program with a reader that
+    skips unparsable lines (`readers_in_source`) and healthy internal plumbing. (The private files are BYTES here;
+    `later_commands_work_nodes` below has them as file-system nodes that may refuse to be read or written.) -/
+theorem later_commands_work (K : GitKernel) (H : Hooks) (hH : WF H) {C : Type} (M : CommitModel H C)
+    (hTol : ∀ s, M.rd s ≠ none) (hK : Healthy K) (hPro : ∀ p, Completes K (H.prologue p))
+    (argv : List Str) (w : World) (plan : Plan) (argv2 : List Str) :
+    (run K H argv2 (run K H argv w plan).world []).kind = .gitRan := by
+  refine later_commands_work_of K H hH hPro (fun p hc w d c => ?_) _ argv2
+  have hpc := hH.pre_confined p
+  rw [M.pre_commit _ hc] at hpc ⊢
+  split
+  · simp [execProg]
+  · rename_i hdry
+    rw [if_neg hdry] at hpc
+    exact preCommit_no_exit K hK _ _ _ _ _ _ hTol hpc _ _ c
+
+/-! ## 4b. … also when a private file cannot be read or written AT ALL -/
+
+section Nodes
+open GitAi.JournalStore
+
+/-- a `Confined` straight-line script is calm: on healthy plumbing, without faults, none of its `?` fires. -/
+theorem calm_script (s : Script) (hc : Confined s.toProg) : Calm s.toProg := by
+  induction s with
+  | done => exact .done
+  | git argv refs k ih =>
+    rw [Script.toProg] at hc ⊢
+    obtain ⟨ha, hk⟩ := hc.step_inv
+    exact .step _ _ ha fun o => ih o (hk (.ok 0 o))
+  | gitOpt argv refs k ih =>
+    rw [Script.toProg] at hc ⊢
+    obtain ⟨ha, hk⟩ := hc.step_inv
+    exact .step _ _ ha fun o => ih _ (hk _)
+  | fsA f k ih =>
+    rw [Script.toProg] at hc ⊢
+    obtain ⟨ha, hk⟩ := hc.step_inv
+    exact .step _ _ ha fun o => ih (hk (.ok 0 o))
+  | readA q k ih =>
+    rw [Script.toProg] at hc ⊢
+    obtain ⟨ha, hk⟩ := hc.step_inv
+    exact .step _ _ ha fun o => ih o (hk (.ok 0 o))
+  | readU q k ih =>
+    rw [Script.toProg] at hc ⊢
+    obtain ⟨ha, hk⟩ := hc.step_inv
+    exact .step _ _ ha fun o => ih o (hk (.ok 0 o))
+
+/-- with every storage failure tolerated, the pre-commit checkpoint is calm — for EVERY node at `checkpoints.jsonl`
+    and `INITIAL` (absent, any bytes, blocked), blobs directory and checkpoints file writable or not, and every
+    reader `rd` (it may fail on whatever it likes). -/
+theorem preCommitS_calm {C : Type} (ckpts initial : AState → Node) (bb cb : AState → Bool)
+    (rd : Node → Option (List C)) (hasAi : Option (List C) → Bool) (hasInitial : Node → Bool)
+    (status : Script) (entries : List C → Script) (sv : AState → AState) (ap : List C → AState → AState)
+    (hs : Confined status.toProg) (he : ∀ cps, Confined (entries cps).toProg) :
+    Calm (preCommitProgS ⟨.tolerate, .tolerate, .tolerate⟩ ckpts initial bb cb rd hasAi hasInitial status entries sv ap) := by
+  unfold preCommitProgS
+  refine .step _ _ rfl fun o1 => .step _ _ rfl fun o2 => ?_
+  simp only []
+  split
+  · exact .done
+  · refine calm_seq (calm_script _ hs) (.step _ _ rfl fun o3 => ?_)
+    have hrest : ∀ cps, Calm (writeS .tolerate bb sv (JournalStore.seq (entries cps).toProg (writeS .tolerate cb (ap cps) .done))) :=
+      fun cps => calm_writeS_tolerate _ _ (calm_seq (calm_script _ (he cps)) (calm_writeS_tolerate _ _ .done))
+    simp only []
+    split
+    · exact hrest _
+    · exact hrest _
+
+/-- the commit pre-hook of `H` is the pre-commit program over file-system nodes, with the failure handling `P`. -/
+structure CommitModelS (H : Hooks) (C : Type) (P : Params) where
+  ckpts : AState → Node
+  initial : AState → Node
+  blobsBlocked : AState → Bool
+  ckptsBlocked : AState → Bool
+  rd : Node → Option (List C)
+  hasAi : Option (List C) → Bool
+  hasInitial : Node → Bool
+  status : Script
+  entries : List C → Script
+  saveBlobs : AState → AState
+  append : List C → AState → AState
+  isDry : Parsed → Bool
+  status_confined : Confined status.toProg
+  entries_confined : ∀ cps, Confined (entries cps).toProg
+  pre_commit : ∀ p, p.command = some commitWord →
+    H.pre p = if isDry p then .done
+      else preCommitProgS P ckpts initial blobsBlocked ckptsBlocked rd hasAi hasInitial status entries saveBlobs append
+
+theorem later_commands_work_tolerant (K : GitKernel) (H : Hooks) (hH : WF H) {C : Type} (P : Params)
+    (hP : P = ⟨.tolerate, .tolerate, .tolerate⟩) (M : CommitModelS H C P) (hK : Healthy K)
+    (hPro : ∀ p, Completes K (H.prologue p)) (w' : World) (argv2 : List Str) :
+    (run K H argv2 w' []).kind = .gitRan := by
+  subst hP
+  refine later_commands_work_of K H hH hPro (fun p hc w d c => ?_) _ argv2
+  rw [M.pre_commit _ hc]
+  split
+  · simp [execProg]
+  · exact exec_calm K hK (preCommitS_calm _ _ _ _ _ _ _ _ _ _ _ M.status_confined M.entries_confined) _ rfl c
+
+/-- **C07 later commands, private files as nodes.** After ANY run, and in ANY state of git-ai's private directory — each of
+    `checkpoints.jsonl` / `INITIAL` absent, a file with arbitrary bytes, or something that cannot be read at all; the blobs
+    directory and the checkpoints file writable or not; a reader `rd` that may return `Err` on anything — the next command,
+    run without faults, reaches git, with the failure handling the source has NOW (`storage_failures_in_source`:
+    every storage failure of the pre-commit checkpoint is tolerated). No hypothesis on the reader is left. -/
+theorem later_commands_work_nodes (K : GitKernel) (H : Hooks) (hH : WF H) {C : Type}
+    (M : CommitModelS H C Extracted.JournalStore.params) (hK : Healthy K) (hPro : ∀ p, Completes K (H.prologue p))
+    (argv : List Str) (w : World) (plan : Plan) (argv2 : List Str) :
+    (run K H argv2 (run K H argv w plan).world []).kind = .gitRan :=
+  later_commands_work_tolerant K H hH _ (by decide) M hK hPro _ argv2
+
+/-- the failure handling the model rests on, in the source extracted now: all three storage operations of the pre-commit
+    checkpoint tolerate `Err`; what reports the failure only prints; `pre_commit` passes `is_pre_commit = true`;
+    `RepoStorage::for_ai_dir` no longer unwraps the set-up of `.git/ai` (a panic before git, for every command). -/
+theorem storage_failures_in_source :
+    Extracted.JournalStore.params = ⟨.tolerate, .tolerate, .tolerate⟩ ∧
+    Extracted.JournalStore.failureReportOnlyPrints = true ∧ Extracted.JournalStore.preCommitPassesFlag = true ∧
+    Extracted.JournalStore.prologueUnwrapsStorageSetup = false := by decide
+
+end Nodes
 
 /-! ## 5. Non-vacuity, the O12 witness, one example per branch of the dichotomy -/
 
@@ -541,6 +657,165 @@ example : (run tightKernel (modelHooks rdTolerant) commitArgv wTorn [none, none,
 example : (run tightKernel (modelHooks rdTolerant) commitArgv wTorn [none, none, none, none, none, none, none, some .fail]).kind = .gitRan ∧
     (run tightKernel (modelHooks rdTolerant) commitArgv wTorn [none, none, none, none, none, none, none, some .fail]).status = 0 := by decide +kernel
 example : (run tightKernel (modelHooks rdTolerant) commitArgv wTorn [none, none, none, none, none, none, none, some .kill]).kind = .killedAfterGit := by decide +kernel
+
+/-! ## 5b. Non-vacuity of §4b and the witness of the defect it found -/
+
+section NodesDemo
+open GitAi.JournalStore
+
+theorem preCommitS_confined {C : Type} (P : Params) (ckpts initial : AState → Node) (bb cb : AState → Bool)
+    (rd : Node → Option (List C)) (hasAi : Option (List C) → Bool) (hasInitial : Node → Bool)
+    (status : Script) (entries : List C → Script) (sv : AState → AState) (ap : List C → AState → AState)
+    (hs : Confined status.toProg) (he : ∀ cps, Confined (entries cps).toProg) :
+    Confined (preCommitProgS P ckpts initial bb cb rd hasAi hasInitial status entries sv ap) := by
+  unfold preCommitProgS
+  refine .step _ _ rfl fun r1 => .step _ _ rfl fun r2 => ?_
+  refine confined_ite _ .done (confined_seq hs (.step _ _ rfl fun r3 => ?_))
+  have hrest : ∀ cps, Confined (writeS P.snapshot bb sv (JournalStore.seq (entries cps).toProg (writeS P.append cb (ap cps) .done))) :=
+    fun cps => confined_writeS _ _ _ (confined_seq (he cps) (confined_writeS _ _ _ .done))
+  simp only []
+  split
+  · exact hrest _
+  · split
+    · exact hrest _
+    · exact .exit 1
+
+theorem preCommitS_exits_nz {C : Type} (P : Params) (ckpts initial : AState → Node) (bb cb : AState → Bool)
+    (rd : Node → Option (List C)) (hasAi : Option (List C) → Bool) (hasInitial : Node → Bool)
+    (status : Script) (entries : List C → Script) (sv : AState → AState) (ap : List C → AState → AState) :
+    ExitsNZ (preCommitProgS P ckpts initial bb cb rd hasAi hasInitial status entries sv ap) := by
+  unfold preCommitProgS
+  refine .step _ _ fun r1 => .step _ _ fun r2 => ?_
+  refine exitsNZ_ite _ .done (exitsNZ_seq (script_exits_nz _) (.step _ _ fun r3 => ?_))
+  have hrest : ∀ cps, ExitsNZ (writeS P.snapshot bb sv (JournalStore.seq (entries cps).toProg (writeS P.append cb (ap cps) .done))) :=
+    fun cps => exitsNZ_writeS _ _ _ (exitsNZ_seq (script_exits_nz _) (exitsNZ_writeS _ _ _ .done))
+  simp only []
+  split
+  · exact hrest _
+  · split
+    · exact hrest _
+    · exact .exit 1 (by decide)
+
+def ckptPath : Str := chars% "working_logs/HEAD/checkpoints.jsonl"
+def initialPath : Str := chars% "working_logs/HEAD/INITIAL"
+def blobsPath : Str := chars% "working_logs/HEAD/blobs"
+/-- the demo worlds hold a node at a path as its `Node.enc` (no entry = nothing there). -/
+def nodeAt (path : Str) (a : AState) : Node :=
+  match a.aiFiles.lookup path with
+  | none => .absent
+  | some t => Node.dec t
+def isBlocked (path : Str) (a : AState) : Bool := decide (nodeAt path a = .blocked)
+def rdNode : Node → Option (List Str) := readCheckpointsNode toyParse (fun _ => true)
+def hasInitialNode : Node → Bool
+  | .file t => !t.isEmpty
+  | _ => false
+def statusScript : Script := .git statusArgv [] fun _ => .done
+def entriesScript (_ : List Str) : Script := .done
+
+/-- the demo hooks of C06 with the node-level pre-commit program under `commit`, parametric in the failure handling. -/
+def modelHooksS (P : Params) : Hooks :=
+  { demoHooks with
+    pre := fun p =>
+      if p.command = some commitWord then
+        (if p.commandArgs.contains (chars% "--dry-run") then .done
+         else preCommitProgS P (nodeAt ckptPath) (nodeAt initialPath) (isBlocked blobsPath) (isBlocked ckptPath) rdNode hasAiToy
+                hasInitialNode statusScript entriesScript id (fun _ => id))
+      else .done }
+
+theorem statusScript_confined : Confined statusScript.toProg := by
+  simp only [statusScript, Script.toProg]
+  refine .step _ _ (by decide) fun r => ?_
+  cases r with
+  | err => exact .exit 1
+  | ok st o =>
+    cases st with
+    | zero => exact .done
+    | succ n => exact .exit 1
+
+theorem modelHooksS_wf (P : Params) : WF (modelHooksS P) where
+  prologue_confined := demoHooks_wf.prologue_confined
+  pre_confined := fun p => by
+    simp only [modelHooksS]
+    split
+    · split
+      · exact .done
+      · exact preCommitS_confined _ _ _ _ _ _ _ _ _ _ _ _ statusScript_confined (fun _ => .done)
+    · exact .done
+  post_confined := demoHooks_wf.post_confined
+  prologue_exits_nz := demoHooks_wf.prologue_exits_nz
+  pre_exits_nz := fun p => by
+    simp only [modelHooksS]
+    split
+    · split
+      · exact .done
+      · exact preCommitS_exits_nz _ _ _ _ _ _ _ _ _ _ _ _
+    · exact .done
+  post_noexit := demoHooks_wf.post_noexit
+  pre_exit_only_commit := fun p hc => by
+    simp only [modelHooksS]
+    rw [if_neg hc]
+    exact .done
+
+def modelCommitS (P : Params) : CommitModelS (modelHooksS P) Str P where
+  ckpts := nodeAt ckptPath
+  initial := nodeAt initialPath
+  blobsBlocked := isBlocked blobsPath
+  ckptsBlocked := isBlocked ckptPath
+  rd := rdNode
+  hasAi := hasAiToy
+  hasInitial := hasInitialNode
+  status := statusScript
+  entries := entriesScript
+  saveBlobs := id
+  append := fun _ => id
+  isDry := fun p => p.commandArgs.contains (chars% "--dry-run")
+  status_confined := statusScript_confined
+  entries_confined := fun _ => .done
+  pre_commit := fun p hc => by simp only [modelHooksS]; rw [if_pos hc]
+
+/-- non-vacuity of `later_commands_work_nodes`: every hypothesis is satisfiable together (note: `rdNode .blocked = none`,
+    the reader DOES fail on a blocked node — the theorem needs no hypothesis about it). -/
+example (argv argv2 : List Str) (w : World) (plan : Plan) :
+    (run tightKernel (modelHooksS Extracted.JournalStore.params) argv2
+      (run tightKernel (modelHooksS Extracted.JournalStore.params) argv w plan).world []).kind = .gitRan :=
+  later_commands_work_nodes tightKernel _ (modelHooksS_wf _) (modelCommitS _) tightKernel_healthy
+    (fun p => demo_prologue_completes rdTolerant p) argv w plan argv2
+example : rdNode .blocked = none := by decide
+
+/-- private state as the damage of the finding leaves it: INITIAL present, a DIRECTORY where `checkpoints.jsonl` was -/
+def wBlocked : World :=
+  ⟨w0.u, ⟨[], [(ckptPath, Node.blocked.enc), (initialPath, (Node.file (chars% "{\"files\":{\"f\":[1]}}")).enc)], [], []⟩⟩
+/-- … the checkpoints file intact (one AI checkpoint) but not writable, e.g. a link into nowhere on the write path: the
+    model has one node per path, so the read sees a file and the write is blocked through `blobs` here -/
+def wBlobsBlocked : World :=
+  ⟨w0.u, ⟨[], [(ckptPath, (Node.file (chars% "{\"a\":1}\n")).enc), (blobsPath, Node.blocked.enc)], [], []⟩⟩
+
+def refuseAll : Params := ⟨.refuse, .refuse, .refuse⟩
+def tolerateAll : Params := ⟨.tolerate, .tolerate, .tolerate⟩
+
+/-- **defect found through this theorem (witness, model; /repo before db722e3c).** With `?` on the three storage operations
+    (`refuseAll`) a directory at `checkpoints.jsonl` next to an INITIAL file makes the pre-commit hook refuse — status 1,
+    before git, nothing changed — hence EVERY later `git commit` is refused the same way: `later_commands_work_nodes` is
+    FALSE for that parameter, for each of the three operations alone (read: `wBlocked`; snapshot: `wBlobsBlocked`; append:
+    `wBlocked` with the read tolerated). With the handling the source has now the same worlds commit. Replayed on the
+    binary: corpus/C07 `checkpoints-replaced-by-directory`, `checkpoints-dangling-link`, `blobs-replaced-by-file`. -/
+theorem witness_blocked_storage_blocks_commit :
+    (run tightKernel (modelHooksS refuseAll) commitArgv wBlocked []).kind = .refused ∧
+    (run tightKernel (modelHooksS refuseAll) commitArgv wBlocked []).status = 1 ∧
+    (run tightKernel (modelHooksS refuseAll) commitArgv wBlocked []).world.u = wBlocked.u ∧
+    (run tightKernel (modelHooksS refuseAll) commitArgv wBlocked []).world.a.aiFiles = wBlocked.a.aiFiles ∧
+    (run tightKernel (modelHooksS refuseAll) commitArgv
+      (run tightKernel (modelHooksS refuseAll) commitArgv wBlocked []).world []).kind = .refused ∧
+    (run tightKernel (modelHooksS ⟨.tolerate, .tolerate, .refuse⟩) commitArgv wBlocked []).kind = .refused ∧
+    (run tightKernel (modelHooksS ⟨.tolerate, .refuse, .tolerate⟩) commitArgv wBlobsBlocked []).kind = .refused ∧
+    (run tightKernel (modelHooksS tolerateAll) commitArgv wBlocked []).kind = .gitRan ∧
+    (run tightKernel (modelHooksS tolerateAll) commitArgv wBlobsBlocked []).kind = .gitRan := by decide +kernel
+
+/-- the refusal branch of the dichotomy is still there with everything tolerated: an internal git call that fails. -/
+example : (run tightKernel (modelHooksS tolerateAll) commitArgv wBlocked [none, none, none, none, some .fail]).kind = .refused := by
+  decide +kernel
+
+end NodesDemo
 
 /-! ## 6. Lost or damaged checkpoint snapshots can only lose attribution -/
 
@@ -727,6 +1002,10 @@ end Snapshots
 #print axioms later_commands_work
 #print axioms modelHooks_wf
 #print axioms witness_O12_strict_reader_blocks_commit
+#print axioms later_commands_work_nodes
+#print axioms storage_failures_in_source
+#print axioms modelHooksS_wf
+#print axioms witness_blocked_storage_blocks_commit
 
 #print axioms lost_snapshot_never_invents
 #print axioms snapshot_reads_in_source
